@@ -143,6 +143,26 @@ def check_one(dc, st, raw, start):
         st.violate('pack %s: wrong placement' % dc.spec['sig'], '%s -> %r, the positioning rule gives %r | %s' % (call, shown, exp, srcline),
                    dc.case(raw=raw, start=start), dc.snippet('print(%s)' % call))
         return
+    # the PARSED packet gets another value in the field its position is computed from (k, when the declaration has one):
+    # serializing follows the new value, not the position it was parsed from
+    if start == 0 and dc.P['name'] == 'K' and 'k' in r[1].pv.vals and isinstance(r[1].pv.vals['k'], int):
+        for newk in (r[1].pv.vals['k'] + 1, r[1].pv.vals['k'] + 2):
+            pv2 = ir.PV(r[1].pv.name, dict(r[1].pv.vals, k=newk))
+            try:
+                exp2, _ = refsem.encode(dc.P, pv2, dc.pkts)
+            except (refsem.Fail, refsem.OutOfScope):
+                continue
+            p2 = ea.impl_unpack(dc.K, raw)[1]
+            p2.k = newk
+            out2 = ea.impl_pack(p2)
+            st.inc('packs')
+            if out2[0] != 'ok' or out2[1] != exp2:
+                shown = out2[1] if out2[0] == 'ok' else getattr(out2[1], 'original_error_message', out2[1])
+                st.violate('pack %s: a parsed packet keeps the position it was parsed from' % dc.spec['sig'],
+                           'p = %s.unpack(%r); p.k = %r; p.pack() -> %r, the positioning rule gives %r | %s' % (dc.P['name'], raw, newk, shown, exp2, srcline),
+                           dc.case(raw=raw, start=0), dc.snippet('p = %s.unpack(%r); p.k = %r; print(p.pack())' % (dc.P['name'], raw, newk)))
+                return
+            break
     # pack -> unpack from values: the encoding parses back to the same values at offset 0
     u2 = ea.impl_unpack(dc.K, exp)
     try:
